@@ -16,18 +16,7 @@ def verdict (b : Bool) : String := if b then "ok" else "err:validation"
 /-- classification aid for the known-findings filter only (never compared with the real code):
     CheckBlock with the per-transaction loop starting at the second transaction, as in D10 -/
 def checkBlockSkipCoinbase (p : Spec.ChainParams) (b : Block) (fPoW fMerkle : Bool) (now : Int) : Res Unit :=
-  match b.vtx with
-  | [] => Model.BlockCheck.checkBlock p b fPoW fMerkle now
-  | cb :: rest =>
-    -- outcome of the repaired check on the block whose coinbase passes every per-transaction rule
-    -- trivially is not expressible by editing the block (the merkle root would change); instead run
-    -- the loop on the tail and every other rule on the whole block
-    match Model.BlockCheck.checkBlock p { b with vtx := cb :: rest } fPoW fMerkle now with
-    | .ok () => .ok ()
-    | .error e =>
-      match Model.BlockCheck.txLoop p (cb :: rest) 0 [] 0, Model.BlockCheck.txLoop p rest 1 [] 0 with
-      | .error _, .ok () => .ok ()     -- only the coinbase's own rules (or its sigops/txid) fail the loop
-      | _, _ => .error e
+  Model.BlockCheck.checkBlockWith (fun vtx => Model.BlockCheck.txLoop p vtx.tail 1 [] 0) p b fPoW fMerkle now
 
 def handle (op : String) (args : List String) : Option String :=
   match op, args with
